@@ -203,6 +203,9 @@ def random_target(rng, net, drop=0.0, zero=0.0, absent_topology=False):
     return tg
 
 
+_DECOYS = []
+
+
 def impl_target(net, tg):
     from gcmpy.names.tools_names import ToolsNames
     from gcmpy.tools.joint_excess_joint_degree_matrices import JointExcessJointDegreeMatrices
@@ -216,6 +219,18 @@ def impl_target(net, tg):
         if items is None:
             continue
         ejks[net["names"][t]] = {tuple(k): float(Fraction(q[0], q[1])) for k, q in items}
+    # a decoy matrices object with the SAME topology names in another order was used earlier in this process and is
+    # still alive (state shared between instances or keyed by bare name would leak into the real one)
+    global _DECOYS
+    try:
+        rev = list(reversed(net["names"]))
+        decoy = JointExcessJointDegreeMatrices({ToolsNames.EJKS: {n: dict(ejks.get(n, {})) for n in rev},
+                                                ToolsNames.EDGE_NAMES: rev})
+        for n in rev:
+            decoy.get_topology_index(n)
+        _DECOYS = [decoy]
+    except Exception:  # noqa: BLE001 - the decoy's own outcome is irrelevant
+        pass
     return JointExcessJointDegreeMatrices({ToolsNames.EJKS: ejks, ToolsNames.EDGE_NAMES: list(net["names"])})
 
 
